@@ -568,6 +568,7 @@ class TeX(object):
                 nesting -= 1
             elif not(nesting) and name == 'else':
                 cases.append([])
+                elsefound = True
                 continue
             elif not(nesting) and name == 'or':
                 cases.append([])
@@ -579,7 +580,12 @@ class TeX(object):
             log.warning(r'\end occurred when \if was incomplete')
 
         # else case for ifs without elses
-        cases.append([])
+        if not elsefound:
+            cases.append([])
+
+        # An \ifcase selector outside of the listed cases takes the \else case
+        if not 0 <= which < len(cases):
+            which = len(cases) - 1
 
         # Push if-selected tokens back into tokenizer
         self.pushTokens(cases[which])
